@@ -422,14 +422,20 @@ func runConc(c *Case) lib.Result {
 	var panics atomic.Int32
 	var wg sync.WaitGroup
 	root := lib.NewRng(c.Seed)
-	// no reader can ever receive more items than all sources together hold (a copy repeats
-	// them once per child, never more): a reader that goes beyond is cut off and reported
-	limit := 64
+	// no reader can ever receive more items than the sources it is derived from hold, counted
+	// along its derivation (a merge of the children of one copy receives the source's items
+	// once per merged child): a reader that goes beyond its own bound is cut off and reported
+	wlen := map[int]int{}
 	for _, wr := range c.Writers {
-		limit += len(wr.Items)
+		wlen[wr.HP] = len(wr.Items)
 	}
-	for _, o := range c.Ops {
-		limit += len(o.Xs)
+	limits := make([]int, len(c.Leaves))
+	limit := 0
+	for i, l := range c.Leaves {
+		limits[i] = 64 + sh.cur(l.H).bound(wlen)
+		if limits[i] > limit {
+			limit = limits[i]
+		}
 	}
 	var runaway atomic.Int32
 	for i, l := range c.Leaves {
@@ -454,7 +460,7 @@ func runConc(c *Case) lib.Result {
 					break
 				}
 				h.Got = append(h.Got, *o.X)
-				if len(h.Got) > limit {
+				if len(h.Got) > limits[i] {
 					runaway.Add(1)
 					break
 				}
@@ -534,7 +540,7 @@ func runConc(c *Case) lib.Result {
 		fail("panic", fmt.Sprintf("%d goroutine(s) panicked inside a stream call", n))
 	}
 	if n := runaway.Load(); n > 0 {
-		fail("runaway", fmt.Sprintf("%d reader(s) received more items than all sources together hold (cut off after %d)", n, limit))
+		fail("runaway", fmt.Sprintf("%d reader(s) received more items than the sources it is derived from hold (largest bound %d)", n, limit))
 	}
 	// goroutines started by the implementation must be gone once every end is closed
 	deadline := time.Now().Add(500 * time.Millisecond)
